@@ -17,7 +17,7 @@ import (
 )
 
 // MaxTasks bounds the number of simulated callers in one run.
-const MaxTasks = 16
+const MaxTasks = 8 + 1000
 
 // HarnessTasks is the number of slots for simulated callers; the slots above it hold goroutines the
 // library itself starts ("daemons"), which live across runs.
@@ -73,8 +73,8 @@ type RunConfig struct {
 	PHot      uint32 // preemption probability at hot sites, in units of 2^-32
 	ColdMean  uint32 // mean number of cold yields between preemptions (0 = never)
 	StickPct  int    // chance (percent) to keep the running task at a non-preempt scheduling point
-	Prio      [MaxTasks]int
-	PreemptAt [MaxTasks][]uint64 // explicit preemption points (task yield counts, ascending)
+	Prio      [HarnessTasks]int
+	PreemptAt [HarnessTasks][]uint64 // explicit preemption points (task yield counts, ascending)
 	Victim    int                // ChooseStall: the stalled task
 	Explicit  []Switch           // ChooseExplicit
 	Budget    uint64             // max yields per task
@@ -107,8 +107,8 @@ type RunResult struct {
 	Sig           uint64
 	Nontrivial    bool // some switch happened between two tasks that were both inside a library call
 	SwitchCount   int
-	Yields        [MaxTasks]uint64
-	Hot           [MaxTasks][]HotYield
+	Yields        [HarnessTasks]uint64
+	Hot           [HarnessTasks][]HotYield
 	OnceContended int // a task had to wait for another task's once-initialisation in progress
 	LockContended int
 	PreemptsFired int
@@ -145,6 +145,7 @@ type task struct {
 	body      func()
 	waitCh    unsafe.Pointer // tsPolling in a plain send/receive: the channel ...
 	waitDir   int            // ... and the direction (1 receive, 2 send)
+	mapRng    uint64         // stream that permutes map iteration orders (MapKeys)
 	meet      bool           // the partner of an unbuffered rendezvous has arrived: complete it with a blocking operation
 }
 
@@ -200,14 +201,17 @@ func SiteFlag(i uint32) uint8 {
 	return 0
 }
 
+// hiSlot bounds every scan of the task table: slots at or above it have never been used.
+var hiSlot = HarnessTasks
+
 //go:norace
 func cur() *task {
 	if !active {
 		return nil
 	}
 	g := getg()
-	for i := 0; i < MaxTasks; i++ {
-		if tasks[i].alive && tasks[i].g == g {
+	for i := 0; i < hiSlot; i++ {
+		if tasks[i].alive && tasks[i].state != tsDone && tasks[i].g == g {
 			return &tasks[i]
 		}
 	}
@@ -216,7 +220,7 @@ func cur() *task {
 
 //go:norace
 func idx(t *task) int {
-	for i := 0; i < MaxTasks; i++ {
+	for i := 0; i < hiSlot; i++ {
 		if &tasks[i] == t {
 			return i
 		}
@@ -262,7 +266,10 @@ func Yield(site uint32) {
 		abort(t)
 	}
 	i := idx(t)
-	pa := cfg.PreemptAt[i]
+	var pa []uint64
+	if i < HarnessTasks {
+		pa = cfg.PreemptAt[i]
+	}
 	if t.pi < len(pa) && pa[t.pi] <= t.n {
 		for t.pi < len(pa) && pa[t.pi] <= t.n {
 			t.pi++
@@ -378,7 +385,7 @@ func choose(c int, kind int) int {
 	nc := 0
 	for {
 		nc = 0
-		for i := 0; i < MaxTasks; i++ {
+		for i := 0; i < hiSlot; i++ {
 			if runnable(i) {
 				cand[nc] = i
 				nc++
@@ -399,7 +406,7 @@ func choose(c int, kind int) int {
 			e := &cfg.Explicit[expPos]
 			if e.Task == c && e.Kind == kind && e.Yield == tasks[c].n {
 				expPos++
-				if e.Next >= 0 && e.Next < MaxTasks && runnable(e.Next) {
+				if e.Next >= 0 && e.Next < hiSlot && runnable(e.Next) {
 					return e.Next
 				}
 			}
@@ -407,7 +414,7 @@ func choose(c int, kind int) int {
 			e := &cfg.Explicit[expPos]
 			if e.Kind == EvStart {
 				expPos++
-				if e.Next >= 0 && e.Next < MaxTasks && runnable(e.Next) {
+				if e.Next >= 0 && e.Next < hiSlot && runnable(e.Next) {
 					return e.Next
 				}
 			}
@@ -463,7 +470,7 @@ func reschedule(t *task, kind int) {
 	next := choose(c, kind)
 	if next < 0 {
 		outcome = OutcomeDeadlock
-		for i := 0; i < MaxTasks; i++ {
+		for i := 0; i < hiSlot; i++ {
 			if tasks[i].alive && tasks[i].state == tsPolling {
 				outcome = OutcomeStuck
 			}
@@ -477,9 +484,13 @@ func reschedule(t *task, kind int) {
 	}
 	record(c, kind, t.n, t.lastSite, next)
 	t.since = 0
+	// After the wake-up the next task runs: a finished task must not touch its slot any more (the slot
+	// of a finished daemon may be handed to a new goroutine at once).
+	finished := t.state == tsDone
+	rfd := t.rfd
 	rawWake(tasks[next].wfd)
-	if t.state != tsDone {
-		rawPark(t.rfd)
+	if !finished {
+		rawPark(rfd)
 	}
 }
 
@@ -571,7 +582,7 @@ func fnv(h, v uint64) uint64 {
 //go:norace
 func describeDeadlock() string {
 	s := "no runnable task:"
-	for i := 0; i < MaxTasks; i++ {
+	for i := 0; i < hiSlot; i++ {
 		if !tasks[i].alive {
 			continue
 		}
@@ -670,9 +681,7 @@ func leave(i int) {
 	t.state = tsDone
 	t.inCall = false
 	progress++
-	reschedule(t, EvDone)
-	t.g = 0
-	t.alive = false
+	reschedule(t, EvDone) // nothing of the slot is touched after this
 }
 
 //go:norace
@@ -683,9 +692,10 @@ func setup(c *RunConfig, n int) {
 	if !pipesOK {
 		mainR, mainW = rawPipe()
 		readyR, readyW = rawPipe()
-		for i := range tasks {
+		for i := 0; i < HarnessTasks; i++ {
 			tasks[i].rfd, tasks[i].wfd = rawPipe()
 		}
+		// daemon slots get their pipes when they are first used
 		pipesOK = true
 	}
 	cfg = *c
@@ -702,7 +712,7 @@ func setup(c *RunConfig, n int) {
 	outcome, detail = OutcomeOK, ""
 	onceCont, lockCont, preFired, nPairs = 0, 0, 0, 0
 	clockJumps, timersFired, daemonSwitch = 0, 0, false
-	for i := HarnessTasks; i < MaxTasks; i++ {
+	for i := HarnessTasks; i < hiSlot; i++ {
 		// goroutines the library started in earlier runs continue; their step accounting starts afresh
 		tasks[i].n, tasks[i].since, tasks[i].pi, tasks[i].stalled = 0, 0, 0, false
 	}
@@ -748,8 +758,8 @@ func drive(n int) *RunResult {
 		tasks[i].alive = false
 	}
 	res.Daemons = 0
-	for i := HarnessTasks; i < MaxTasks; i++ {
-		if tasks[i].alive {
+	for i := HarnessTasks; i < hiSlot; i++ {
+		if tasks[i].alive && tasks[i].state != tsDone {
 			res.Daemons++
 		}
 	}
